@@ -257,3 +257,60 @@ def lemmas_c18():
     same = [r >= 0, r < E.depth, c >= 0, c < E.width, E.ST(Fm, a0, r, c, x), E.ST(Fm, b, r, c, x)]
     out.append(("c18:hh-merge-same-key-is-min(sum,ceiling)", basem + same, a1.lhh_count(r, c) == zmin(a0.lhh_count(r, c) + b.lhh_count(r, c), MAX32)))
     return out
+
+
+def lemmas_c12_hh():
+    """add(key, v) equals v single adds (heavy hitters), 0 <= v <= 2^32-1: closed form of the key's
+    cell in a row after j unit adds, from the start cell (count c0, identity id0):
+       cell stores the key:  count min(c0 + j, MAX32), identity unchanged
+       otherwise:            j <= c0: count c0 - j, identity unchanged;  j > c0: count j - c0, identity = key"""
+    E = Env()
+    out = []
+    T0, Ta, Tb, T1 = Tbl("s0"), Tbl("sa"), Tbl("sb"), Tbl("s1")
+    x0, j, v, r, q = z3.Ints("x0 j v r q")
+    c = E.col(x0, r)
+    F0 = E.frame({}, E.arrays(T0, None))
+    match0 = E.ST(F0, T0, r, c, x0)
+    c0 = T0.lhh_count(r, c)
+    kb = lambda jj: z3.If(z3.And(jj >= 0, jj < IDL(x0)), IDB(x0, jj), 0)
+
+    def closed(t, jj):
+        """table t holds the closed form for j = jj in cell (r, c)"""
+        keep = z3.Or(match0, jj <= c0)
+        cnt = z3.If(match0, zmin(c0 + jj, MAX32), z3.If(jj <= c0, c0 - jj, jj - c0))
+        idb = lambda b: z3.If(keep, T0.lhh(r, c, b), kb(b))
+        idl = z3.If(keep, T0.key_lens(r, c), IDL(x0))
+        return cnt, idb, idl
+
+    def is_closed(t, jj):
+        cnt, idb, idl = closed(t, jj)
+        qb = z3.Int("qb")
+        return [t.lhh_count(r, c) == cnt, t.key_lens(r, c) == idl, z3.ForAll([qb], z3.Implies(z3.And(qb >= 0, qb < E.mkl), t.lhh(r, c, qb) == idb(qb)))]
+
+    base = E.base + [E.idwf, r >= 0, r < E.depth] + E.typed(T0)
+    # unit step a -> b with value 1
+    n0, n1 = fn("cn0", 1), fn("cn1", 1)
+    arrays = E.arrays(Ta, Tb)
+    arrays["n_added_records"] = (n0, n1, (z3.IntVal(2),))
+    match = z3.Function("cmatch", I, B)
+    Fu = E.frame({"value": z3.IntVal(1)}, arrays, keys={"key": LKey(x0)}, ghosts={"match": match})
+    hu = list(H.HHAdd().ghost_defs(Fu)) + [f for n, f in clauses(H.HHAdd().ensures(Fu))]
+    hy = base + E.typed(Ta) + E.typed(Tb) + [j >= 0, j + 1 <= MAX32] + is_closed(Ta, j) + hu
+    cnt1, idb1, idl1 = closed(Tb, j + 1)
+    out.append(("c12:hh:unit-add-advances-the-closed-form (count)", hy, Tb.lhh_count(r, c) == cnt1))
+    out.append(("c12:hh:unit-add-advances-the-closed-form (length)", hy, Tb.key_lens(r, c) == idl1))
+    out.append(("c12:hh:unit-add-advances-the-closed-form (bytes)", hy + [q >= 0, q < E.mkl], Tb.lhh(r, c, q) == idb1(q)))
+    # bulk add with value v
+    arrays2 = E.arrays(T0, T1)
+    m0, m1 = fn("cm0", 1), fn("cm1", 1)
+    arrays2["n_added_records"] = (m0, m1, (z3.IntVal(2),))
+    matchb = z3.Function("cmatchb", I, B)
+    Fb = E.frame({"value": v}, arrays2, keys={"key": LKey(x0)}, ghosts={"match": matchb})
+    hb = base + E.typed(T1) + [v >= 0, v <= MAX32] + list(H.HHAdd().ghost_defs(Fb)) + [f for n, f in clauses(H.HHAdd().ensures(Fb))]
+    cntv, idbv, idlv = closed(T1, v)
+    out.append(("c12:hh:bulk-add-is-the-closed-form-at-v (count)", hb, T1.lhh_count(r, c) == cntv))
+    out.append(("c12:hh:bulk-add-is-the-closed-form-at-v (length)", hb, T1.key_lens(r, c) == idlv))
+    out.append(("c12:hh:bulk-add-is-the-closed-form-at-v (bytes)", hb + [q >= 0, q < E.mkl], T1.lhh(r, c, q) == idbv(q)))
+    out.append(("c12:hh:n_added-bulk==n_added+v", hb + [m0(0) >= 0, m0(0) + v < TWO64], m1(0) == m0(0) + v))
+    out.append(("c12:hh:n_added-unit-step", hy + [n0(0) >= 0, n0(0) + 1 < TWO64], n1(0) == n0(0) + 1))
+    return out
